@@ -26,7 +26,7 @@ import (
 
 var c04signers = []string{"issuer", "trusted", "sibling", "stranger", "ee-key", "ca-no-crlsign", "replayed-signature", "root", "ee-key-leaf-alone"}
 var c04akis = []int{akiDefault, akiAbsent, akiIssuerSer, akiBoth, akiForeignKey, akiSerialOnly, akiURISerial}
-var c04paths = []string{"first-load", "provision-url", "refresh"}
+var c04paths = []string{"first-load", "provision-url", "refresh", "reprovision-without-signer"}
 var c04algs = []SigAlg{ECDSASHA256, ECDSASHA1, ECDSASHA224, ECDSASHA384, ECDSASHA512, RSASHA256, RSASHA1, RSASHA224, RSASHA384, RSASHA512, RSAPSSSHA256, ED25519, MD5RSA}
 
 func c04matrix() (n int) {
@@ -43,7 +43,7 @@ func init() {
 		if tier == "thorough" {
 			n = e + c04bitsUpper + 3000 // RSA sweep + sampled refresh-path flips and larger documents
 		}
-		return Plan{Runs: n, Enumerated: e, Exhaustive: true, Level: "fault_enumeration", Rule: "enumerated: (signer in {issuer, configured trusted signer, sibling CA with the same name, stranger, the client certificate's own key, the same with the client certificate presented alone as a directly trusted leaf, CA without cRLSign, the issuer's genuine signature of ANOTHER list the validator verified earlier in the same process, the root of the presented chain signing in the issuer's name} x AKI form in {keyId, absent, issuer+serial, both, foreign keyId, serial without issuer, URI issuer + serial} x intake path in {first CDP load, crl_urls at provision, periodic refresh}) + (13 signature algorithms x intake path) + every single-bit flip of tbsCertList / signatureAlgorithm / signatureValue of a small ECDSA CRL on the first-load path (bit indices past the end of the document are counted as skipped); further runs: the same sweep for an RSA CRL (thorough), flips on the refresh path and on larger documents; oracle: a non-authentic document is never observed in force and a strict handshake for its distribution point is denied unless an earlier authentic version is in force; non-trivial = the delivered document was not authentic"}
+		return Plan{Runs: n, Enumerated: e, Exhaustive: true, Level: "fault_enumeration", Rule: "enumerated: (signer in {issuer, configured trusted signer, sibling CA with the same name, stranger, the client certificate's own key, the same with the client certificate presented alone as a directly trusted leaf, CA without cRLSign, the issuer's genuine signature of ANOTHER list the validator verified earlier in the same process, the root of the presented chain signing in the issuer's name} x AKI form in {keyId, absent, issuer+serial, both, foreign keyId, serial without issuer, URI issuer + serial} x intake path in {first CDP load, crl_urls at provision, periodic refresh, and - for the configured trusted signer - a restart on the same work_dir with that signer withdrawn from the configuration}) + (13 signature algorithms x intake path) + every single-bit flip of tbsCertList / signatureAlgorithm / signatureValue of a small ECDSA CRL on the first-load path (bit indices past the end of the document are counted as skipped); further runs: the same sweep for an RSA CRL (thorough), flips on the refresh path and on larger documents; oracle: a non-authentic document is never observed in force and a strict handshake for its distribution point is denied unless an earlier authentic version is in force; non-trivial = the delivered document was not authentic"}
 	}, Run: runC04})
 }
 
@@ -81,6 +81,16 @@ func runC04(h *Harness) {
 		extra = Pick(tp, 2, 30, 200)
 	}
 	backend := []string{"memory", "disk"}[h.Idx%2]
+	if path == "reprovision-without-signer" {
+		if signer != "trusted" || flipBit != -1 || alg >= 0 {
+			h.Probe("cell-not-applicable")
+			sc["skipped"] = "the withdrawn-signer history exists for the configured trusted signer only"
+			h.R.Sample = map[string]any{"skipped": true}
+			return
+		}
+		c04withdrawnSigner(h, aki, []string{"disk", "memory"}[(h.Idx/len(c04signers))%2])
+		return
+	}
 	if signer == "ca-no-crlsign" && path == "refresh" {
 		// an issuer that may not sign CRLs cannot have a first version accepted either: the cell does not exist
 		h.Probe("cell-not-applicable")
@@ -350,4 +360,56 @@ func c04class(desc string) string {
 		return "alg:" + f[1]
 	}
 	return f[0]
+}
+
+// c04withdrawnSigner: a configured CRL signed by the configured trusted signer T is accepted; the validator is stopped
+// and provisioned again on the same work_dir WITHOUT T in its configuration while the origin serves a newer list signed
+// by T. Nobody entitles T any more: that list must not come into force (Provision may fail instead).
+func c04withdrawnSigner(h *Harness, aki int, backend string) {
+	sc := h.R.Scenario
+	w := NewWorld(h, WorldOpts{Intermediate: h.Idx%3 == 0})
+	T := NewCA(nil, CAOpts{CN: "x", SubjectOf: w.A})
+	loc := w.NewLocation(LocOpts{Name: "L1", URL: "http://crl.sim/a.crl", Issuer: w.A, NVers: 2, Extra: 2, Width: 8, AKI: akiDefault})
+	for k := range loc.Versions {
+		d := *loc.Versions[k]
+		d.Signer, d.SignerKey, d.AKI, d.AutoAlg = T, nil, aki, true
+		d.Build()
+		loc.Versions[k] = &d
+	}
+	desc := fmt.Sprintf("signer=trusted-then-withdrawn aki=%d", aki)
+	sc["case"], sc["path"], sc["backend"], sc["authentic"] = desc, "reprovision-without-signer", backend, false
+	h.R.NonTrivial, h.R.Config = true, "faulty"
+	cfg := NodeCfg{Mode: "crl_only", Storage: backend, UpdateInterval: "10m", SigMode: "verify", CDPStrict: true,
+		CRLUrls: []string{loc.URL}, TrustedSigFiles: []string{h.WriteFile("trust/t.pem", CertPEM(T.Cert))}}
+	n := h.NewNode("n1", cfg)
+	if err := h.Provision(n); err != nil {
+		h.Probe("authentic-rejected-at-provision")
+		h.R.Sample = map[string]any{"case": desc, "provision": "failed"}
+		return
+	}
+	h.Quiesce()
+	sc["pattern_first"] = loc.Pattern(n)
+	h.Cleanup(n)
+	h.Settle(6 * time.Minute)
+	loc.Cur = 1
+	cfg2 := cfg
+	cfg2.TrustedSigFiles = nil
+	m := h.NewNodeOn("n1r", cfg2, n.WorkDir)
+	err := h.Provision(m)
+	h.Quiesce()
+	sc["reprovision_err"] = err != nil
+	h.R.Checks++
+	if err == nil {
+		p := loc.Pattern(m)
+		sc["pattern_after"] = p
+		if p == "v2" || strings.HasPrefix(p, "other") {
+			h.Violation("C04.unauthentic-in-force", "signer=trusted-withdrawn:reprovision", "after a restart WITHOUT the trusted signer in the configuration a newly fetched list signed by that signer came into force (pattern %s, backend %s): nobody entitles that certificate to sign the CRL any more", p, backend)
+		}
+		h.Settle(10*time.Minute + 40*time.Second)
+		if p := loc.Pattern(m); p == "v2" {
+			h.Violation("C04.unauthentic-in-force", "signer=trusted-withdrawn:refresh-after-reprovision", "one refresh period after the restart without the trusted signer the list signed by it is in force (backend %s)", backend)
+		}
+	}
+	h.R.Sample = map[string]any{"case": desc, "backend": backend, "reprovision_failed": err != nil}
+	h.Cleanup(m)
 }
